@@ -419,7 +419,7 @@ def replay(case, rec):
 
 
 def run(rec, rng, tier, shard, nshards):
-    n = 150 if tier == 'quick' else 1500
+    n = 300 if tier == 'quick' else 2500
     for i in range(n):
         case = gen_case(rng, tier, big=(i % 10 == 0))
         try:
